@@ -84,9 +84,18 @@ PickV == st.phase = 1 /\ \E vl \in VerifierLists(st.n) : \E c \in Corruptions(st
            /\ (st.nc => \A i \in 1..st.n : c[i] = "")
            /\ st' = [phase |-> 2, n |-> st.n, dec |-> st.dec, nc |-> st.nc, vl |-> vl, c |-> [i \in 1..st.n |-> c[i]]]
 PickBad == st.phase = 0 /\ \E n \in 0..MaxN : \E hole \in 0..n : (n = 0 \/ hole > 0) /\ st' = [phase |-> 3, n |-> n, hole |-> hole]
+\* a key that panics (a faulty HSM driver): the panic may propagate or become an error, but the call must not report success
+PanicProg(n, pos, what) ==
+  << [op |-> "new", obj |-> "m", kind |-> "sign", m |-> [P |-> BodyP, U |-> <<>>, payload |-> Pay, sigs |-> [i \in 1..n |-> Lay(i)]]] >>
+  \o (IF what = "sign"
+      THEN << [op |-> "sign", obj |-> "m", signers |-> [i \in 1..n |-> IF i = pos THEN [Sg(i) EXCEPT !.fault = "panic"] ELSE Sg(i)]] @@ X,
+              [op |-> "marshal", obj |-> "m", buf |-> "b"] >>
+      ELSE << [op |-> "sign", obj |-> "m", signers |-> [i \in 1..n |-> Sg(i)]] @@ X,
+              [op |-> "verify", obj |-> "m", verifiers |-> [i \in 1..n |-> IF i = pos THEN [Vf(i) EXCEPT !.fault = "panic"] ELSE Vf(i)]] @@ X >>)
+PickPanic == st.phase = 0 /\ \E n \in 1..MaxN : \E pos \in 1..n : \E what \in {"sign", "verify"} : st' = [phase |-> 6, n |-> n, pos |-> pos, what |-> what]
 PickJunk == st.phase = 0 /\ \E n \in 1..MaxN : \E hole \in 1..n : \E j \in {"null", "undef", "arr0", "bstr"} : st' = [phase |-> 4, n |-> n, hole |-> hole, j |-> j]
 PickNil == st.phase = 0 /\ \E n \in 1..MaxN : \E hole \in 1..n : \E what \in {"marshal", "sign", "verify"} : st' = [phase |-> 5, n |-> n, hole |-> hole, what |-> what]
-Next == PickN \/ PickV \/ PickBad \/ PickJunk \/ PickNil
+Next == PickN \/ PickV \/ PickBad \/ PickJunk \/ PickNil \/ PickPanic
 Spec == Init /\ [][Next]_st
 
 Emit ==
@@ -100,5 +109,7 @@ Emit ==
                                   steps |-> <<[op |-> "unmarshal", obj |-> "m", kind |-> "sign", buf |-> "w", bytes |-> JunkImage(st.n, st.hole, st.j)]>>])>>)
     [] st.phase = 5 ->
          PrintT(<<"CASE", ToJson([flow |-> "nilslot", n |-> st.n, hole |-> st.hole, what |-> st.what, ext |-> X.ext, steps |-> NilSlotProg(st.n, st.hole, st.what)])>>)
+    [] st.phase = 6 ->
+         PrintT(<<"CASE", ToJson([flow |-> "panickey", n |-> st.n, pos |-> st.pos, what |-> st.what, ext |-> X.ext, steps |-> PanicProg(st.n, st.pos, st.what)])>>)
     [] OTHER -> TRUE
 =============================================================================
